@@ -60,6 +60,7 @@ class SymCtx:
     self.unknown = []
     self.notes = []
     self.path_choices = []
+    self.violated = set()
 
   # ---- inputs ----------------------------------------------------------------------------
   def _decl(self, name, sort):
@@ -177,6 +178,8 @@ class SymCtx:
 
   def require(self, name, c, tol=None, detail=None):
     c = _bt(c)
+    if name in self.violated:
+      return False            # already refuted on an earlier instance/path: do not spend solver time
     pc = self.ex.pc()
     t0 = time.time()
     r, model = solve.prove(pc, c, self.proof_timeout_ms)
@@ -197,8 +200,11 @@ class SymCtx:
       vals['__choices__'] = list(self.path_choices)
       self.cex.append({'name': name, 'values': vals, 'decisions': None, 'nice': nm is not None,
                        'detail': detail, 'goal': str(z3.simplify(c))[:300]})
+      self.violated.add(name)
     elif r == 'unknown':
       self.unknown.append(name)
+      if len(self.unknown) >= self.case.get('max_unknown', 3):
+        raise Inconclusive('solver returned unknown on %s' % sorted(set(self.unknown)))
     return r == 'unsat'
 
   def fail(self, name, detail=None):
@@ -350,7 +356,7 @@ def run_symbolic(case):
   """Returns a result dict for one case (symbolic mode)."""
   exr = Explorer(timeout_ms=case.get('feas_timeout_ms', 20000),
                  max_paths=case.get('max_paths', 5000), name=case['name'])
-  ctx = SymCtx(exr, case, proof_timeout_ms=case.get('proof_timeout_ms', 60000))
+  ctx = SymCtx(exr, case, proof_timeout_ms=case.get('proof_timeout_ms', 30000))
   before = core.stats_snapshot()
   t0 = time.time()
   status = 'ok'
@@ -368,7 +374,18 @@ def run_symbolic(case):
     paths = exr.run_all(body)
     for p in paths:
       if p.exc is not None:
-        path_exc.append(''.join(traceback.format_exception_only(type(p.exc), p.exc)).strip()[:300])
+        msg = ''.join(traceback.format_exception_only(type(p.exc), p.exc)).strip()[:300]
+        path_exc.append(msg)
+        if not case.get('allow_path_exceptions') and len(ctx.cex) < 8:
+          # an exception the harness did not expect: a counter-example if it reproduces concretely
+          r, model = solve.satisfiable(p.pc, timeout_ms=20000)
+          if r == 'sat':
+            vals = {}
+            for n, v in ctx.inputs.items():
+              x = solve.model_value(model, v)
+              vals[n] = [x.numerator, x.denominator] if isinstance(x, Fraction) else x
+            ctx.cex.append({'name': 'exception:' + type(p.exc).__name__, 'values': vals,
+                            'nice': False, 'detail': msg, 'goal': 'no exception'})
   except Inconclusive as e:
     status, err = 'inconclusive', str(e)
   except core.SymbolicRealisation as e:
@@ -379,7 +396,7 @@ def run_symbolic(case):
   delta = {k: after[k] - before[k] for k in after}
   if status == 'ok':
     if path_exc and not case.get('allow_path_exceptions'):
-      status, err = 'harness_error', 'unhandled exception on a path: ' + path_exc[0]
+      status, err = 'path_exception', 'unhandled exception on a path: ' + path_exc[0]
     elif not ctx.obligations:
       status, err = 'harness_error', 'vacuous: no obligation was reached'
     elif ctx.unknown:
